@@ -375,6 +375,210 @@ def _anc(node, pm):
     return out
 
 
+# ---------------------------------------------------------------------------------- weighted-mean shape evaluation
+def _stack_eval(p, t, fn):
+    """Abstract evaluation of a stacking function `(models, weights) -> (mean of pred_x, mean of est_x)`.
+
+    Values: ("models",), ("w",), ("rows", field) = one model vector per row (N, d), ("cols", field) = its transpose,
+    ("mean", field) = sum_i w_i x_i, ("across", field, text, cond) = weights applied along the component axis (a
+    (N, d) stack times an N-vector: only shape-correct when N == d, and then wrong), ("zero",), ("acc", field) partial
+    sum inside the model loop.  Every expression evaluates to a SET of values (one per path); unknown forms -> None."""
+    mparam, wparam = fn.params[0], fn.params[1]
+
+    def ev_fn(fi, args, depth=0):
+        env = {prm: a for prm, a in zip(fi.params, args)}
+        return block(fi, fi.node.body, env, depth, [])
+
+    def block(fi, stmts, env, depth, cond):
+        """returns (list of returned value-tuples or None if no return on every path, env) - env is joined"""
+        rets = []
+        for k, st in enumerate(stmts):
+            if isinstance(st, ast.Expr) and isinstance(st.value, ast.Constant):
+                continue
+            if isinstance(st, (ast.Assign, ast.AnnAssign)) and getattr(st, "value", None) is not None:
+                tg = st.targets[0] if isinstance(st, ast.Assign) else st.target
+                v = ev(fi, st.value, env, depth, cond)
+                if isinstance(tg, ast.Name):
+                    if v is None:
+                        return None
+                    env[tg.id] = v
+                    continue
+                return None
+            if isinstance(st, ast.AugAssign) and isinstance(st.target, ast.Name):
+                return None  # only inside the model loop (handled below)
+            if isinstance(st, ast.For):
+                it = st.iter
+                if isinstance(it, ast.Call) and call_name(it) == "zip" and len(it.args) == 2 and isinstance(st.target, ast.Tuple) and len(st.target.elts) == 2:
+                    a, b = ev(fi, it.args[0], env, depth, cond), ev(fi, it.args[1], env, depth, cond)
+                    if a == {("models",)} and b == {("w",)}:
+                        mv, wv = st.target.elts[0].id, st.target.elts[1].id
+                        for s2 in st.body:
+                            if isinstance(s2, ast.AugAssign) and isinstance(s2.op, ast.Add) and isinstance(s2.target, ast.Name) and env.get(s2.target.id) in ({("zero",)},):
+                                e = s2.value
+                                fld = None
+                                if isinstance(e, ast.BinOp) and isinstance(e.op, ast.Mult):
+                                    for x, y in ((e.left, e.right), (e.right, e.left)):
+                                        if isinstance(x, ast.Attribute) and isinstance(x.value, ast.Name) and x.value.id == mv and isinstance(y, ast.Name) and y.id == wv:
+                                            fld = x.attr
+                                if fld is None:
+                                    return None
+                                env[s2.target.id] = {("mean", fld)}
+                            else:
+                                return None
+                        continue
+                return None
+            if isinstance(st, ast.If):
+                e1, e2 = dict(env), dict(env)
+                ctxt = unparse(st.test)
+                r1 = block(fi, st.body, e1, depth, cond + [ctxt])
+                r2 = block(fi, st.orelse, e2, depth, cond + [f"not ({ctxt})"])
+                if r1 is None or r2 is None:
+                    return None
+                rets += r1[0] + r2[0]
+                done1, done2 = r1[2], r2[2]
+                if done1 and done2:
+                    return rets, env, True
+                # join environments of the branches that fall through
+                for key in set(e1) | set(e2):
+                    a = e1.get(key) if not done1 else None
+                    b = e2.get(key) if not done2 else None
+                    if a is None and b is None:
+                        continue
+                    env[key] = (a or set()) | (b or set())
+                continue
+            if isinstance(st, ast.Return) and st.value is not None:
+                v = st.value
+                if isinstance(v, ast.Tuple):
+                    parts = [ev(fi, x, env, depth, cond) for x in v.elts]
+                    if any(x is None for x in parts):
+                        return None
+                    rets.append(tuple(parts))
+                else:
+                    x = ev(fi, v, env, depth, cond)
+                    if x is None:
+                        return None
+                    rets.append((x,))
+                return rets, env, True
+            return None
+        return rets, env, False
+
+    def ev(fi, e, env, depth, cond):
+        if isinstance(e, ast.Name):
+            if e.id in env:
+                return env[e.id]
+            return None
+        if isinstance(e, ast.Constant) and e.value == 0:
+            return {("zero",)}
+        if isinstance(e, (ast.ListComp, ast.GeneratorExp)) and len(e.generators) == 1 and not e.generators[0].ifs:
+            g = e.generators[0]
+            src = ev(fi, g.iter, env, depth, cond)
+            if src == {("models",)} and isinstance(g.target, ast.Name) and isinstance(e.elt, ast.Attribute) and isinstance(e.elt.value, ast.Name) and e.elt.value.id == g.target.id:
+                return {("rows", e.elt.attr)}
+            return None
+        if isinstance(e, ast.List) and len(e.elts) == 1:
+            inner = ev(fi, e.elts[0], env, depth, cond)  # [[...]] -> vstack idiom: an extra leading axis, squeezed by vstack
+            return inner
+        if isinstance(e, ast.Attribute) and e.attr == "T":
+            v = ev(fi, e.value, env, depth, cond)
+            if v is None:
+                return None
+            out = set()
+            for x in v:
+                if x[0] == "rows":
+                    out.add(("cols", x[1]))
+                elif x[0] == "cols":
+                    out.add(("rows", x[1]))
+                else:
+                    return None
+            return out
+        if isinstance(e, ast.Call):
+            nm = call_name(e)
+            if nm in ("asarray", "array", "atleast_2d", "vstack", "ascontiguousarray", "copy") and e.args:
+                v = ev(fi, e.args[0], env, depth, cond)
+                return v
+            if nm in ("column_stack",) and e.args:
+                v = ev(fi, e.args[0], env, depth, cond)
+                return {("cols", x[1]) for x in v} if v and all(x[0] == "rows" for x in v) else None
+            if nm in ("stack",) and e.args:
+                v = ev(fi, e.args[0], env, depth, cond)
+                ax = next((const_int(k.value) for k in e.keywords if k.arg == "axis"), 0)
+                if v and all(x[0] == "rows" for x in v) and ax in (0, 1, -1):
+                    return v if ax == 0 else {("cols", x[1]) for x in v}
+                return None
+            if nm in ("dot", "matmul") and (len(e.args) == 2 or (isinstance(e.func, ast.Attribute) and len(e.args) == 1 and not (isinstance(e.func.value, ast.Name) and e.func.value.id in ("np", "numpy")))):
+                a, b = (e.args[0], e.args[1]) if len(e.args) == 2 else (e.func.value, e.args[0])
+                return prod(fi, a, b, env, depth, cond, unparse(e))
+            if nm == "average" and e.args:
+                v = ev(fi, e.args[0], env, depth, cond)
+                kw = {k.arg: k.value for k in e.keywords}
+                w = ev(fi, kw["weights"], env, depth, cond) if "weights" in kw else None
+                ax = const_int(kw["axis"]) if "axis" in kw else None
+                if v and w == {("w",)} and ax is not None:
+                    out = set()
+                    for x in v:
+                        good = (x[0] == "rows" and ax == 0) or (x[0] == "cols" and ax in (1, -1))
+                        out.add(("mean", x[1]) if good else ("across", x[1], unparse(e)[:60], " and ".join(cond)))
+                    return out
+                return None
+            # helper function of the module: evaluate its body with abstract arguments
+            if isinstance(e.func, ast.Name) and depth < 3:
+                tgs = [x for x in t.callees(e, fi) if hasattr(x, "node") and isinstance(x.node, ast.FunctionDef)]
+                if len(tgs) == 1 and not e.keywords:
+                    args = [ev(fi, a, env, depth, cond) for a in e.args]
+                    if any(a is None for a in args):
+                        return None
+                    rr = block(tgs[0], tgs[0].node.body, {prm: a for prm, a in zip(tgs[0].params, args)}, depth + 1, list(cond))
+                    if rr is None or not rr[0]:
+                        return None
+                    out = set()
+                    for tup in rr[0]:
+                        if len(tup) != 1:
+                            return None
+                        out |= tup[0]
+                    return out
+            return None
+        if isinstance(e, ast.BinOp) and isinstance(e.op, ast.MatMult):
+            return prod(fi, e.left, e.right, env, depth, cond, unparse(e))
+        return None
+
+    def prod(fi, a, b, env, depth, cond, txt):
+        va, vb = ev(fi, a, env, depth, cond), ev(fi, b, env, depth, cond)
+        if va is None or vb is None:
+            return None
+        out = set()
+        for x in va:
+            for y in vb:
+                if x[0] == "cols" and y == ("w",):
+                    out.add(("mean", x[1]))
+                elif x == ("w",) and y[0] == "rows":
+                    out.add(("mean", y[1]))
+                elif x[0] == "rows" and y == ("w",):
+                    out.add(("across", x[1], txt[:60], " and ".join(cond)))
+                elif x == ("w",) and y[0] == "cols":
+                    out.add(("across", y[1], txt[:60], " and ".join(cond)))
+                else:
+                    return None
+        return out
+
+    def const_int(n):
+        if isinstance(n, ast.Constant) and isinstance(n.value, int):
+            return n.value
+        if isinstance(n, ast.UnaryOp) and isinstance(n.op, ast.USub) and isinstance(n.operand, ast.Constant):
+            return -n.operand.value
+        return None
+
+    rr = block(fn, fn.node.body, {mparam: {("models",)}, wparam: {("w",)}}, 0, [])
+    if rr is None or not rr[0]:
+        return None
+    preds, ests = set(), set()
+    for tup in rr[0]:
+        if len(tup) != 2:
+            return None
+        preds |= tup[0]
+        ests |= tup[1]
+    return preds, ests
+
+
 def rule_r4(chk, p, t):
     r = chk.rule(
         "C18.R4",
@@ -423,19 +627,26 @@ def rule_r4(chk, p, t):
     es = p.func("resonaate.estimation.adaptive.mmae_stacking_utils.eciStack")
 
     def f2():
-        loops = [n for n in walk_no_nested(es.node) if isinstance(n, ast.For)]
-        require(len(loops) == 1, "one loop expected", es.node)
-        lp = loops[0]
-        ok = unparse(lp.iter) == f"zip({es.params[0]}, {es.params[1]})"
-        tv = [unparse(x) for x in lp.target.elts] if isinstance(lp.target, ast.Tuple) else ["?", "?"]
-        adds = {unparse(n.target): canon(n.value) for n in lp.body if isinstance(n, ast.AugAssign) and isinstance(n.op, ast.Add)}
-        ok = ok and adds.get("pred_x") == canon(ast.parse(f"{tv[0]}.pred_x * {tv[1]}", mode="eval").body) and adds.get("est_x") == canon(ast.parse(f"{tv[0]}.est_x * {tv[1]}", mode="eval").body)
-        rets = [n for n in walk_no_nested(es.node) if isinstance(n, ast.Return)]
-        ok = ok and rets and unparse(rets[0].value) in ("(pred_x, est_x)", "pred_x, est_x")
-        if ok:
-            r.ok(es.qualname, "mean = sum w_i x_i (predicted, estimated)", es.loc())
+        res = _stack_eval(p, t, es)
+        want = ({("mean", "pred_x")}, {("mean", "est_x")})
+        if res is None:
+            raise Undecided("eciStack: the stacking function is not built from the recognised weighted-mean forms", es.node)
+        bad = []
+        for vals, w, nm in zip(res, want, ("predicted", "estimated")):
+            extra = vals - w
+            for v in sorted(extra, key=repr):
+                if v[0] == "across":
+                    bad.append(f"the {nm} mean can be `{v[2]}`: the weights multiply the COMPONENTS of each model's `{v[1]}` instead of the models" + (f" whenever `{v[3]}`" if len(v) > 3 and v[3] else "") + " - the layout of the stacked vectors is guessed from their shape, which is ambiguous when the number of models equals the state dimension (6)")
+                elif v[0] == "mean":
+                    bad.append(f"the {nm} slot returns the weighted mean of `{v[1]}`")
+                else:
+                    bad.append(f"the {nm} mean can be `{v}`")
+            if not (vals & w):
+                bad.append(f"no path returns the probability-weighted mean of the models' {w and sorted(w)[0][1]} in the {nm} slot")
+        if bad:
+            r.violation(es.qualname, "stacking:" + ";".join(sorted(set(b[:60] for b in bad))), "the stacking function is not the probability-weighted mean of the model states, returned as (predicted, estimated): " + "; ".join(sorted(set(bad))), es.loc())
         else:
-            r.violation(es.qualname, "stacking", "the stacking function is not the probability-weighted mean of the model states, returned as (predicted, estimated)", es.loc())
+            r.ok(es.qualname, "mean = sum w_i x_i (predicted, estimated) on every path", es.loc())
 
     r.guard(es.qualname, f2)
     want_l = "exp(-0.5 * model.nis) / sqrt((2 * const.PI) ** self.true_y.shape[0] * det(model.innov_cvr))"
